@@ -837,6 +837,20 @@ def extract(repo: Path):
         return out
 
     def routes_for(c, labels):
+        out = _routes_for(c, labels)
+        # a scalar of the attribute map has its own storage (an HDF5 attribute written by write_attributes only): the
+        # dataset writers do not write it even when the getter they call happens to read it
+        amap = getattr(c, "_attribute_map", None)
+        scalars = set()
+        if isinstance(amap, dict):
+            for key, attr in amap.items():
+                scalars |= attr_fields(c, attr) or set()
+        for l, fs in out.items():
+            if fs and wf["dispatch"].get(l, wf["default"]) != "write_attributes":
+                out[l] = sorted(f for f in fs if f == "_" + l or f not in scalars)
+        return out
+
+    def _routes_for(c, labels):
         out = {}
         amap = getattr(c, "_attribute_map", None)
         for l in labels:
@@ -874,7 +888,7 @@ def extract(repo: Path):
                     out[l] = None
                     continue
                 got = attr_fields(c, l) or set()
-                if "FilenameData" in classes and issubclass(c, classes["FilenameData"]):
+                if l == "values" and "FilenameData" in classes and issubclass(c, classes["FilenameData"]):
                     got = got | (attr_fields(c, "file_name") or set())
                 out[l] = sorted(got)
             elif routine in ("write_color_map", "write_value_map", "write_property_groups"):
